@@ -1206,10 +1206,9 @@ impl platform::Platform for Elf {
             let dependencies_count = symbol_db.version_script.parent_count();
             mem_sizes.increment(
                 part_id::GNU_VERSION_D,
-                (size_of::<crate::elf::Verdef>() as u16 * version_count
-                    + size_of::<crate::elf::Verdaux>() as u16
-                        * (version_count + dependencies_count))
-                    .into(),
+                size_of::<crate::elf::Verdef>() as u64 * u64::from(version_count)
+                    + size_of::<crate::elf::Verdaux>() as u64
+                        * (u64::from(version_count) + u64::from(dependencies_count)),
             );
             state.verdefs.replace(verdefs);
         }
